@@ -129,14 +129,24 @@ wal_case!(c12_writer_frames_len1_left7, 1, 7, 14);
 wal_case!(c12_writer_frames_len12_left10, 12, 10, 20);
 wal_case!(c12_writer_frames_len12_left1, 12, 1, 20);
 
-/// C12-O2: reopening a segment derives block_offset = size % BLOCK_SIZE; for EVERY segment size the
-/// next header then lies wholly inside one block (maybe_switch_to_new_block pads when < 7 bytes remain).
+/// C12-O2: reopening a segment: the writer's block_offset is re-derived from the file size by the
+/// real code of Wal::create_writer (slice wal_reopen: its existing-file branch with the std::fs calls
+/// cut away).  For EVERY segment size the writer's idea of its position inside the 32 KiB block grid
+/// agrees with the file position, and after maybe_switch_to_new_block the next header lies wholly
+/// inside one block.
 #[kani::proof]
 #[kani::unwind(9)]
 fn c12_reopen_offset_arithmetic() {
 	let size: u64 = kani::any();
-	let off = (size % BLOCK_SIZE as u64) as usize;
-	let mut w = mk_writer(off);
+	kani::assume(size >= 1 && size <= (1 << 32));
+	let file = unsafe { std::fs::File::from_raw_fd(1000) };
+	let mut w = crate::wal::manager::verif_slice_wal_reopen::verif_reopen_writer(size, file, CompressionType::None);
+	#[cfg(verif_replay)]
+	println!("REPLAY wal reopen size={} -> block_offset={}", size, w.block_offset);
+	// records appended from here are framed relative to w.block_offset: it must be the file position
+	// modulo the block size, otherwise everything written in this session is out of phase with the grid
+	assert!(w.block_offset == (size % BLOCK_SIZE as u64) as usize, "writer's block_offset disagrees with the position in the file after reopen");
+	let off = w.block_offset;
 	let r = w.maybe_switch_to_new_block();
 	let ok = r.is_ok();
 	core::mem::forget(r);
@@ -144,9 +154,10 @@ fn c12_reopen_offset_arithmetic() {
 	assert!(w.block_offset + HEADER_SIZE <= BLOCK_SIZE, "next header would straddle a block boundary");
 	let padded = w.dest.writer.buffer().len();
 	assert!(padded < HEADER_SIZE, "padding of a header's size or more");
-	assert!((off + padded) % BLOCK_SIZE == w.block_offset, "padding does not land on the block boundary");
+	assert!((size as usize + padded) % BLOCK_SIZE == w.block_offset, "padding does not land on the block boundary");
+	let _ = off;
 	kani::cover!(padded == 6, "six bytes of padding");
-	kani::cover!(padded == 0 && off > 0, "no padding needed mid-block");
+	kani::cover!(padded == 0 && w.block_offset > 0, "no padding needed mid-block");
 	core::mem::forget(w);
 }
 
